@@ -49,8 +49,8 @@ func mutatorsSeeOperationContext(c *Ctx) {
 					}
 					any := false
 					ok = true
-					for _, ref := range an.Referrers(fn) {
-						if cl, isC := ref.(ssa.CallInstruction); isC && cl.Common().StaticCallee() == fn && idx >= 0 && idx < len(cl.Common().Args) {
+					for _, cl := range c.callSitesOf(fn) {
+						if idx >= 0 && idx < len(cl.Common().Args) {
 							any = true
 							if !ctxFromWithOperationContext(cl.Common().Args[idx], cl, 0, map[ssa.Value]bool{}) {
 								ok = false
@@ -76,7 +76,9 @@ func wsRejectedOperationAnswered(c *Ctx) {
 		return
 	}
 	n := 0
-	for _, cr := range an.CallsIn(fn, func(_ ssa.CallInstruction, ci an.CalleeInfo) bool { return ci.Method != nil && ci.Method.Name() == "CreateOperationContext" }) {
+	for _, cr := range an.CallsIn(fn, func(_ ssa.CallInstruction, ci an.CalleeInfo) bool {
+		return ci.Method != nil && ci.Method.Name() == "CreateOperationContext"
+	}) {
 		if cr.Parent() != fn {
 			continue
 		}
@@ -88,7 +90,9 @@ func wsRejectedOperationAnswered(c *Ctx) {
 			if !ok || empty {
 				continue
 			}
-			for _, comp := range an.CallsIn(fn, func(_ ssa.CallInstruction, ci an.CalleeInfo) bool { return ci.Static != nil && ci.Static.Name() == "complete" }) {
+			for _, comp := range an.CallsIn(fn, func(_ ssa.CallInstruction, ci an.CalleeInfo) bool {
+				return ci.Static != nil && ci.Static.Name() == "complete"
+			}) {
 				if comp.Parent() != fn || !(e.To == comp.Block() || an.Reach(e.To, nil)[comp.Block()]) {
 					continue
 				}
@@ -190,7 +194,9 @@ func c16Round3(c *Ctx) {
 	// (c) default values are printed as GraphQL literals
 	c.R.Rule("default-value-printed", "introspection.defaultValue: the text comes from (*ast.Value).String() (a GraphQL literal: strings quoted, lists and objects rendered), not from the raw token", 1)
 	if fn := c.fn(pkgIntrosp, "defaultValue"); fn != nil {
-		usesString := len(an.CallsIn(fn, func(_ ssa.CallInstruction, ci an.CalleeInfo) bool { return strings.HasSuffix(ci.FullName(), "ast.Value).String") })) > 0
+		usesString := len(an.CallsIn(fn, func(_ ssa.CallInstruction, ci an.CalleeInfo) bool {
+			return strings.HasSuffix(ci.FullName(), "ast.Value).String")
+		})) > 0
 		usesRaw := false
 		for _, b := range fn.Blocks {
 			for _, in := range b.Instrs {
@@ -223,35 +229,71 @@ func rewriterRound3(c *Ctx) {
 		if nameParam == nil {
 			continue
 		}
-		for _, b := range fn.Blocks {
-			for _, in := range b.Instrs {
-				mu, ok := in.(*ssa.MapUpdate)
-				if !ok {
-					continue
-				}
-				fa, isF := loadAddr(an.Strip(mu.Map)).(*ssa.FieldAddr)
-				if !isF || fieldNameOf(fa) != "copied" {
-					continue
-				}
-				n++
-				named, empty := false, false
-				for _, f := range an.Facts(in) {
-					if f.Op == token.EQL && (an.Strip(f.X) == ssa.Value(nameParam) || an.Strip(f.Y) == ssa.Value(nameParam)) {
-						named = true
+		for _, body := range an.WithClosures(fn) {
+			for _, b := range body.Blocks {
+				for _, in := range b.Instrs {
+					mu, ok := in.(*ssa.MapUpdate)
+					if !ok {
+						continue
 					}
-					if f.Op == token.EQL {
-						for _, pr := range [][2]ssa.Value{{f.X, f.Y}, {f.Y, f.X}} {
-							if k, isC := an.ConstInt(pr[1]); isC && k == 0 {
-								if call, isCall := an.Strip(pr[0]).(*ssa.Call); isCall && strings.HasSuffix(an.CalleeOf(call).FullName(), "NumFields") {
-									empty = true
+					fa, isF := loadAddr(an.Strip(mu.Map)).(*ssa.FieldAddr)
+					if !isF || fieldNameOf(fa) != "copied" {
+						continue
+					}
+					n++
+					named, empty := false, false
+					facts := an.Facts(in)
+					if body != fn {
+						// the store stands in a literal handed to an iterator of the package together with the name: the facts
+						// under which the iterator calls its callback count too (name equality is tested there)
+						for _, b2 := range fn.Blocks {
+							for _, i2 := range b2.Instrs {
+								call, ok := i2.(*ssa.Call)
+								if !ok || call.Call.StaticCallee() == nil || call.Call.StaticCallee().Pkg != fn.Pkg {
+									continue
+								}
+								it := call.Call.StaticCallee()
+								passesName := false
+								var itName *ssa.Parameter
+								for k, a := range call.Call.Args {
+									if an.Strip(a) == ssa.Value(nameParam) && k < len(it.Params) {
+										passesName, itName = true, it.Params[k]
+									}
+								}
+								if !passesName {
+									continue
+								}
+								for _, cb := range an.CallsIn(it, func(ci ssa.CallInstruction, _ an.CalleeInfo) bool {
+									_, isParam := an.Strip(ci.Common().Value).(*ssa.Parameter)
+									return isParam && !ci.Common().IsInvoke()
+								}) {
+									for _, f := range an.Facts(cb) {
+										if f.Op == token.EQL && (an.Strip(f.X) == ssa.Value(itName) || an.Strip(f.Y) == ssa.Value(itName)) {
+											named = true
+										}
+									}
 								}
 							}
 						}
 					}
-				}
-				c.R.Check(named, fn.Name()+"/named", c.ipos(in), "only the declaration called name", fn.Name()+" marks declarations whose name was not compared equal to the name asked for: every other type declaration of the user's file is treated as already copied and silently dropped from the regenerated file")
-				if strings.Contains(fn.Name(), "Empty") {
-					c.R.Check(empty, fn.Name()+"/empty", c.ipos(in), "only when the struct has no fields", fn.Name()+" marks the struct without having found it empty: a root type the user added fields to is dropped instead of being preserved")
+					for _, f := range facts {
+						if f.Op == token.EQL && (an.Strip(f.X) == ssa.Value(nameParam) || an.Strip(f.Y) == ssa.Value(nameParam)) {
+							named = true
+						}
+						if f.Op == token.EQL {
+							for _, pr := range [][2]ssa.Value{{f.X, f.Y}, {f.Y, f.X}} {
+								if k, isC := an.ConstInt(pr[1]); isC && k == 0 {
+									if call, isCall := an.Strip(pr[0]).(*ssa.Call); isCall && strings.HasSuffix(an.CalleeOf(call).FullName(), "NumFields") {
+										empty = true
+									}
+								}
+							}
+						}
+					}
+					c.R.Check(named, fn.Name()+"/named", c.ipos(in), "only the declaration called name", fn.Name()+" marks declarations whose name was not compared equal to the name asked for: every other type declaration of the user's file is treated as already copied and silently dropped from the regenerated file")
+					if strings.Contains(fn.Name(), "Empty") {
+						c.R.Check(empty, fn.Name()+"/empty", c.ipos(in), "only when the struct has no fields", fn.Name()+" marks the struct without having found it empty: a root type the user added fields to is dropped instead of being preserved")
+					}
 				}
 			}
 		}
@@ -484,12 +526,26 @@ func c20Round3(c *Ctx, plugin bool) {
 			if fn == nil {
 				continue
 			}
-			for _, cl := range fn.AnonFuncs {
-				hasRecover := len(an.CallsIn(cl, func(_ ssa.CallInstruction, ci an.CalleeInfo) bool { return strings.HasSuffix(ci.FullName(), "OperationContext).Recover") || strings.HasSuffix(ci.FullName(), ".Recover") })) > 0
+			handlers := append([]*ssa.Function{}, fn.AnonFuncs...)
+			for _, b := range fn.Blocks {
+				for _, in := range b.Instrs {
+					if d, ok := in.(*ssa.Defer); ok {
+						if sc := d.Call.StaticCallee(); sc != nil && sc.Pkg == fn.Pkg && len(sc.Blocks) > 0 {
+							handlers = append(handlers, sc) // a named handler shared by several functions
+						}
+					}
+				}
+			}
+			for _, cl := range handlers {
+				hasRecover := len(an.CallsIn(cl, func(_ ssa.CallInstruction, ci an.CalleeInfo) bool {
+					return strings.HasSuffix(ci.FullName(), "OperationContext).Recover") || strings.HasSuffix(ci.FullName(), ".Recover")
+				})) > 0
 				if !hasRecover {
 					continue
 				}
-				reports := an.CallsIn(cl, func(_ ssa.CallInstruction, ci an.CalleeInfo) bool { return strings.HasSuffix(ci.FullName(), "OperationContext).Error") })
+				reports := an.CallsIn(cl, func(_ ssa.CallInstruction, ci an.CalleeInfo) bool {
+					return strings.HasSuffix(ci.FullName(), "OperationContext).Error")
+				})
 				pos := c.pos(cl.Pos())
 				if len(reports) > 0 {
 					pos = c.ipos(reports[0])
@@ -537,4 +593,22 @@ func c20Round3(c *Ctx, plugin bool) {
 	if m == 0 {
 		c.R.Fail("requires-compared-with-zero: no comparison of len(Requires) found in plugin/federation")
 	}
+}
+
+// callSitesOf: the static call sites of fn in its own package (ssa.Function values keep no referrer list).
+func (c *Ctx) callSitesOf(fn *ssa.Function) []ssa.CallInstruction {
+	var out []ssa.CallInstruction
+	if fn == nil || fn.Pkg == nil {
+		return nil
+	}
+	for f := range allFuncsOfPkg(fn.Pkg) {
+		for _, b := range f.Blocks {
+			for _, in := range b.Instrs {
+				if cl, ok := in.(ssa.CallInstruction); ok && cl.Common().StaticCallee() == fn {
+					out = append(out, cl)
+				}
+			}
+		}
+	}
+	return out
 }
